@@ -28,7 +28,7 @@ LEVEL = {"C20": "exploration", "C03": "fault_enumeration", "C19": "fault_enumera
 ASSUME = [
     "all 18 source files of cproc-qbe are the real ones from /repo's working tree, compiled in place with -Dmain=cproc_qbe_main -finstrument-functions and linked with -Wl,--wrap for the allocator, stream opening and termination (imports audited with nm)",
     "glibc's stdio buffering stays real between the compiler and the simulated descriptors (fopencookie streams); behaviour specific to another libc is out of reach",
-    "the workload is finite: the 170 corpus files (own mode and target, plus other targets and -E) and a parameterised stress family; stream corruption is one truncation or one flipped bit of a corpus file",
+    "the workload is finite: the 170 corpus files (own mode and target, plus other targets and -E), the feature snippets of simB/features, cproc's own sources preprocessed with the system cpp (sampled), and a parameterised stress family; stream corruption is one truncation or one flipped bit of a corpus or feature file",
     "successful short writes are not modelled (stdio absorbs them); EPIPE is delivered as an error return, not as SIGPIPE",
 ]
 
@@ -39,6 +39,31 @@ SPACE_DESC = {
     "read": "the k-th read of the input fails with EIO, for every k of the fault-free run, for every corpus file",
     "write": "the k-th write to the output fails (ENOSPC), for every k of the fault-free run under 4 buffer modes, transient and persistent, accepting 0 / 1 / all-but-one bytes, for every corpus file",
 }
+
+
+def own_sources():
+    """cproc's own sources, preprocessed with the system cpp and the flags the driver would pass:
+    a realistic, large workload (C19 and C03 name it in their quantifiers).  Cached by content."""
+    srcs = sorted(f for f in os.listdir(build.REPO) if f.endswith(".c"))
+    paths = [os.path.join(build.REPO, f) for f in srcs] + [os.path.join(build.REPO, f) for f in ("cc.h", "util.h", "utf.h", "ops.h", "arg.h", "config.h")]
+    key = build.file_hash(paths, "own-v1")
+    d = os.path.join(build.BUILD, "own-" + key)
+    with build.Lock("own"):
+        if os.path.isdir(d) and os.listdir(d):
+            os.utime(d)
+            return d
+        os.makedirs(d, exist_ok=True)
+        flags = ["-P", "-U", "__GNUC__", "-U", "__GNUC_MINOR__", "-D", "__STDC_NO_ATOMICS__", "-D", "__STDC_NO_COMPLEX__", "-U", "__SIZEOF_INT128__", "-U", "__PIC__", "-D", "__extension__="]
+        for f in srcs:
+            out = os.path.join(d, f[:-2] + ".i")
+            r = subprocess.run(["cpp"] + flags + [os.path.join(build.REPO, f)], stdout=open(out, "w"), stderr=subprocess.DEVNULL)
+            if r.returncode != 0 or os.path.getsize(out) == 0:
+                os.unlink(out)
+        build.prune("own-", 3)
+        return d
+
+
+FEATURES = os.path.join(vc.VERIF, "simB", "features")
 
 
 def known_sig_file(prop, work):
@@ -61,7 +86,7 @@ def replay(prop, path):
     work = tempfile.mkdtemp(prefix="simB-replay-", dir=build.BUILD)
     try:
         ks, _ = known_sig_file(prop, work)
-        r = subprocess.run([exe, "replay", path, "--repo", build.REPO, "--known-sigs", ks, "--log"])
+        r = subprocess.run([exe, "replay", path, "--repo", build.REPO, "--known-sigs", ks, "--features", FEATURES, "--own", own_sources(), "--log"])
         return r.returncode
     finally:
         shutil.rmtree(work, ignore_errors=True)
@@ -77,7 +102,7 @@ def run(prop, tier):
     os.makedirs(vc.REPLAYS, exist_ok=True)
     try:
         ks, sigs = known_sig_file(prop, work)
-        common = ["--repo", build.REPO, "--known-sigs", ks, "--replay-dir", vc.REPLAYS]
+        common = ["--repo", build.REPO, "--known-sigs", ks, "--features", FEATURES, "--own", own_sources(), "--replay-dir", vc.REPLAYS]
         # open known findings: replay the stored reproducer, list the finding while it still reproduces
         for k in vc.open_findings(prop):
             if not k["repro"]:
@@ -87,7 +112,7 @@ def run(prop, tier):
                 san = json.load(open(rp)).get("build") == "sanitized"
             except Exception:
                 continue
-            r = subprocess.run([exe_san if san else exe, "replay", rp] + common[:4], stdout=subprocess.PIPE, text=True)
+            r = subprocess.run([exe_san if san else exe, "replay", rp] + common[:8], stdout=subprocess.PIPE, text=True)
             if r.returncode == 0 and "known: " in r.stdout:
                 print("KNOWN-FINDING: property=%s %s [%s]" % (prop, k["text"], k["sig"].replace("~", " ")))
             elif r.returncode == 1:
@@ -95,7 +120,7 @@ def run(prop, tier):
         # sizes of the exhaustive spaces
         spaces = {}
         for sp in set(b.get("spaces", []) + b.get("san_spaces", [])):
-            out = subprocess.run([exe, "space", "--name", sp, "--repo", build.REPO], stdout=subprocess.PIPE, text=True).stdout
+            out = subprocess.run([exe, "space", "--name", sp, "--repo", build.REPO, "--features", FEATURES], stdout=subprocess.PIPE, text=True).stdout
             spaces[sp] = json.loads(out)["total"]
         # job list: (exe, args, count) split into NCPU worker processes each
         jobs = []
@@ -125,7 +150,7 @@ def run(prop, tier):
         for w in range(3):
             out = os.path.join(work, "gate-%d.json" % w)
             gate.append(("gate", out, [exe, "run", "--prop", prop, "--seed", str(seed), "--start", str(w), "--stride", "3", "--count", str((det - w + 2) // 3),
-                                      "--out", out, "--hashes", out + ".idx", "--max-violations", "0"] + common[:4] + ["--replay-dir", os.path.join(work, "gate-replays")]))
+                                      "--out", out, "--hashes", out + ".idx", "--max-violations", "0"] + common[:8] + ["--replay-dir", os.path.join(work, "gate-replays")]))
         res_b = run_jobs(jobs2 + gate)
         jobs = jobs_bak + jobs2
 
